@@ -326,6 +326,15 @@ def run():
         else:
             good.append((it, x))
     verd = validate(rep, [x for _, x in good])
+    # the binding binds: a recorded load with its last row removed must be rejected
+    import copy
+    probe = next((x for (_, x), ok in zip(good, verd) if ok and len(x['rows']) >= 2 and not x['limit']), None)
+    if probe is not None:
+        c1 = copy.deepcopy(probe)
+        c1['rows'] = c1['rows'][:-1]
+        if validate(rep, [c1])[0]:
+            raise tlc.MachineryError('LoadTrace accepted a recorded load with a row removed: the trace spec does not bind')
+        rep.notes['trace_binding_selftest'] = 'a recorded load result with its last row removed is rejected'
     for (it, x), ok in zip(good, verd):
         rep.count(1, traces=1)
         rep.mark_distinct(it)
